@@ -123,7 +123,11 @@ impl Model {
         let at = match (ia, ib) {
             (Some(a), Some(b)) => {
                 if a >= b {
-                    return Expect::Either("`before` anchor is not below `after` anchor");
+                    // with both anchors an accepted insert leaves the rule below `after` and directly
+                    // above `before`; when `before` is not below `after` (or is the same rule) no
+                    // position does both, so the only outcome that keeps the placement clause is
+                    // the documented error, with the set unchanged
+                    return Expect::MustErr("`before` anchor is not below `after` anchor");
                 }
                 b
             }
